@@ -157,7 +157,7 @@ pub fn run(tier: Tier, seed: u64) -> i32 {
                 if cl_len > l {
                     continue;
                 }
-                let positions: Vec<usize> = if tier == Tier::Thorough || cp < 0x3000 {
+                let positions: Vec<usize> = if tier == Tier::Thorough || cp < 0x110000 {
                     (0..=(l - cl_len)).collect()
                 } else {
                     // quick tier, astral/CJK ranges: first, middle and last position
@@ -307,11 +307,7 @@ pub fn run(tier: Tier, seed: u64) -> i32 {
     report.sample("string", json!({"input": "a€aaaaaaaaaaaaaa (16 bytes, 14 chars)", "expected": "Err(CharacterNotAllowed('€'))"}));
     report.sample("string", json!({"input": "😀😀😀😀a (17 bytes)", "expected": "Err(StringTooLong)"}));
     report.sample("string", json!({"input": "aZ~\":", "expected": "Ok(\"AZ~\\\":\")"}));
-    if tier == Tier::Thorough {
-        report.space("every Unicode scalar value (1,112,064) at every position of a string of every byte length 1..=17");
-    } else {
-        report.space("every Unicode scalar value at every position for code points < U+3000, and at first/middle/last position above, for every byte length 1..=17");
-    }
+    report.space("every Unicode scalar value (1,112,064) at every position of a string of every byte length 1..=17");
     report.space("all strings of <= 5 (quick: 4) characters over {a,Z,0,space,~,\",:,0x1F,0x7F,é,€,😀} through all five constructors; all multi-byte strings of byte length 13..=20; all pairs of a 2000-element set for ==/cmp/Hash");
     report.assume("multi-character combinations beyond the small alphabets are not enumerated");
     report.finish()
